@@ -5,7 +5,7 @@ import traceback
 
 from common import Driver, Infra, Run, audit, lake_build
 
-LEVELS = {"C05": "other", "C12": "other", "C20": "other"}
+LEVELS = {"C05": "other", "C20": "other"}
 
 
 def main(argv):
@@ -35,6 +35,16 @@ def main(argv):
             tb = traceback.extract_tb(e.__traceback__)
             impl_frames = [f for f in tb if os.path.abspath(f.filename).startswith(str(REPO) + os.sep)]
             if not impl_frames:
+                # a call in a documented form (positional order / keyword names of the pinned public signature) that the CURRENT
+                # signature of an implementation function rejects is raised by the interpreter before any implementation frame exists
+                import re, subprocess
+                m = re.match(r"^(?:\w+\.)*(\w+)\(\) (got multiple values|got an unexpected keyword|missing \d+ required|takes (?:from )?\d+)", str(e)) if isinstance(e, TypeError) else None
+                if m and subprocess.run(["grep", "-rqE", rf"def {m.group(1)}\(", str(REPO / "causationentropy"), "--include=*.py"]).returncode == 0:
+                    run.prop_fail("a call in a documented form is rejected by the implementation's current signature",
+                                  {"exception": repr(e), "function": m.group(1),
+                                   "harness_frame": next((f"{f.filename}:{f.lineno}" for f in reversed(tb) if "/verif/harness/props/" in f.filename), "")},
+                                  {"clause": "total"}, traceback.format_exc()[-1500:])
+                    return run.finish()
                 raise          # nothing of the implementation on the stack: a harness/tool failure (exit 2)
             run.prop_fail("the implementation raised an exception on an input the property quantifies over",
                           {"exception": repr(e), "where": [f"{f.filename}:{f.lineno} {f.name}" for f in impl_frames[-3:]],
